@@ -23,7 +23,9 @@ RULE = (
     "arbitrary decision indices), so every run is deterministic and replayable. In addition ALL interleavings of "
     "two tasks are enumerated depth-first over the scheduler's choice points for eight configurations (same name twice, two "
     "names, evaluate + statistic on an empty and on a non-empty file, resumed file, two statistics; threads, and forks up "
-    "to a leaf limit), and, in the thorough tier, all interleavings with at most two preemptions of three and four tasks. Oracle: TSV model - final file = header + "
+    "to a leaf limit), and, in the thorough tier, all interleavings with at most two preemptions of three and four tasks. "
+    "Lock-sharing probe: while the parent holds a module-level lock, a worker started through multiprocessing.Process / "
+    "multiprocessing.Pool / panoptica.utils.NonDaemonicPool (default context) must not be able to take it. Oracle: TSV model - final file = header + "
     "exactly one complete row per distinct submitted name, each equal to the row of a sequential run; deadlock (live "
     "tasks, none runnable) = a call that blocks forever; every statistic built when the file held >=1 complete row "
     "succeeds and contains only submitted names with the sequential values. Non-trivial: >=1 switch away from a task "
@@ -109,7 +111,84 @@ def enumerations(tier):
         for name, tasks, pre in (("3_tasks_same_name", [E(0), E(0), E(0)], 0), ("3_tasks_mixed", [E(0), E(1), S], 1),
                                  ("3_tasks_collision+stat", [E(1), E(1), S], 0), ("4_tasks_mixed", [E(0), E(0), E(2), S], 1)):
             yield {"dfs": name + "_preempt<=2", "mode": "threads", "tasks": tasks, "pre": pre, "limit": limit, "max_preempt": 2}
-    return [("all_interleavings_of_two_tasks_and_preemption_bounded_of_3_4", g())]
+    def probes():
+        for via in ("Process", "Pool", "NonDaemonicPool"):
+            yield {"probe": "lock_sharing", "via": via}
+    return [("all_interleavings_of_two_tasks_and_preemption_bounded_of_3_4", g()), ("lock_sharing_with_worker_processes", probes())]
+
+
+def _probe_try_lock(name):
+    """Runs in a worker process: can the module-level lock be taken right now?"""
+    import sys
+
+    if "panoptica" not in sys.modules:  # worker that did not inherit the parent's modules
+        H.boot()
+    import panoptica.panoptica_aggregator as A
+
+    lk = getattr(A, name)
+    lk = getattr(lk, "real", lk)
+    got = lk.acquire(False)
+    if got:
+        lk.release()
+    return got
+
+
+def _probe_to_pipe(name, conn):
+    conn.send(_probe_try_lock(name))
+    conn.close()
+
+
+def check_probe(case, stats):
+    """Workers started the way the library's users start them (default multiprocessing context,
+    multiprocessing.Pool, panoptica.utils.NonDaemonicPool) after importing panoptica must work on the
+    parent's module-level locks: while the parent holds one, no worker may be able to take it."""
+    import multiprocessing as mp
+
+    ensure_fresh_module()
+    import panoptica.panoptica_aggregator as A
+
+    names = sorted(k for k, v in vars(A).items() if isinstance(v, sched.SchedLock))
+    stats.record(case, bool(names), ["probe=lock_sharing", f"via={case['via']}"])
+    for name in names:
+        real = getattr(A, name).real
+        if not real.acquire(False):
+            raise H.HarnessError(f"{name} is held at the start of a case")
+        try:
+            via = case["via"]
+            got = None
+            if via == "Process":
+                a, b = mp.Pipe(False)
+                p = mp.Process(target=_probe_to_pipe, args=(name, b))
+                p.start()
+                if a.poll(120):
+                    got = a.recv()
+                p.join(10)
+                if p.is_alive():
+                    p.kill()
+            else:
+                if via == "Pool":
+                    pool = mp.Pool(1)
+                else:
+                    from panoptica.utils import NonDaemonicPool
+
+                    pool = H.lib_call(NonDaemonicPool, 1)
+                try:
+                    try:
+                        got = pool.apply_async(_probe_try_lock, (name,)).get(120)
+                    except mp.TimeoutError:
+                        got = None
+                finally:
+                    pool.terminate()
+                    pool.join()
+        finally:
+            real.release()
+        if got is None:
+            stats.count("probe_inconclusive_worker_did_not_answer")
+        elif got:
+            raise Violation(f"a worker process started through {via} (start method {mp.get_start_method()!r}) took the module-level lock {name!r} while the parent "
+                            "process held it: workers do not share the aggregator's locks, so the duplicate check, the claim and the row append are unprotected between processes")
+        else:
+            stats.count("worker_blocked_by_parent_lock")
 
 
 def check_dfs(meta, stats):
@@ -194,6 +273,8 @@ def cell_value(s):
 def check(case, stats):
     if "dfs" in case:
         return check_dfs(case, stats)
+    if "probe" in case:
+        return check_probe(case, stats)
     from panoptica import Panoptica_Aggregator
 
     with H.quiet():
